@@ -92,7 +92,7 @@ def schedule_text(f):
             t.append(f"respawn {c}")
         t.append("seg")
         for c in seg["calls"]:
-            t.append(f"call {c['client']} {c['op']} {c['a'][2:]} {c['b'][2:]}")
+            t.append(f"call {c['client']} {c['op']} {c['a'][2:]} {c['b'][2:]}" + (f" {c['fail_alloc']}" if c.get("fail_alloc") else ""))
         for w in seg.get("script", []):
             t.append(f"sw {w['from']} {w['at_yield']} {w['to']}")
         if seg.get("repeat", 1) > 1:
@@ -112,7 +112,8 @@ def exec_schedule(binary, f):
 def describe(f):
     parts = []
     for seg in f["segments"]:
-        calls = " || ".join(f"c{c['client']}:{c['op']}({c['a']}{',' + c['b'] if int(c['b'], 16) else ''})" for c in seg["calls"])
+        calls = " || ".join(f"c{c['client']}:{c['op']}({c['a']}{',' + c['b'] if int(c['b'], 16) else ''})" +
+                            (f"!alloc#{c['fail_alloc']}fails" if c.get("fail_alloc") else "") for c in seg["calls"])
         sw = [w for w in seg.get("script", []) if w["from"] != 255 and w["at_yield"] >= 0]
         if seg.get("repeat", 1) > 1:
             calls += f" x{seg['repeat']}"
@@ -153,6 +154,7 @@ def write_evidence(tier, seed, cov, wall, violations, assumptions):
 SUMMED = ["runs", "calls", "forks", "nontrivial_runs", "isolation_checks", "disagreements", "signals_caught", "items_lost",
           "hung_children", "unstable", "fine_executions", "concurrent_segments", "concurrent_calls", "yield_points",
           "preemptions", "baton_handoffs", "long_runs", "very_long_runs", "hot_loop_runs", "crowd_runs", "churn_runs", "planned_respawns", "threads_started",
+          "allocations_inside_library_calls", "allocation_failures_injected", "plans_with_allocations", "fault_injecting_executions",
           "access_records", "nonstack_writes_observed", "conflicting_call_pairs", "plans_with_conflicts", "directed_executions"]
 
 
@@ -250,8 +252,9 @@ def run_check(tier, seed):
         path = os.path.join(REPLAYS, f"{PROPERTY}-{f['mode']}-{f['seed']}.json")
         rec = dict(property=PROPERTY,
                    what=("run-time result of the victim call depends on " +
-                         ("where it (or a co-running call) is preempted while another caller is inside the library"
-                          if f["mode"] == "fine" else "the calls made before it")),
+                         ("where it (or a co-running call) is preempted while another caller is inside the library" if f["mode"] == "fine"
+                          else "an allocation failure injected into an earlier or the same call (it returned normally, with other bits)" if f["mode"] == "fault"
+                          else "the calls made before it")),
                    verif_seed=seed, replay_cmd=f"python3 sim/check.py --replay {os.path.relpath(path, VERIF)}", **f)
         with open(path, "w") as fh:
             json.dump(rec, fh, indent=1)
@@ -315,9 +318,15 @@ def run_check(tier, seed):
         "synchronous_signals_caught_identically": total["signals_caught"],
         "items_lost_to_child_death": total["items_lost"],
         "hung_children": total["hung_children"],
-        "fault_kinds_injected": {},
-        "fault_kinds_note": ("none, deliberately: the library calls nothing that can fail (audit/seam_audit.py S2: no allocation, I/O "
-                             "or system call), so the only dimensions searched are the call history and the interleaving"),
+        "fault_kinds_injected": {"allocation_failure_inside_call": total["allocation_failures_injected"]},
+        "fault_injection": {"allocation_requests_observed_inside_library_calls": total["allocations_inside_library_calls"],
+                            "plans_in_which_the_library_allocated": total["plans_with_allocations"],
+                            "fault_injecting_executions": total["fault_injecting_executions"],
+                            "allocation_failures_injected": total["allocation_failures_injected"]},
+        "fault_kinds_note": ("one fault kind exists in the harness: the n-th allocation requested by one call fails (DESIGN 9.5). It is injected only "
+                             "in plans whose fault-free execution saw the library allocate; a count of 0 requests observed means the library "
+                             "allocates nothing on any explored path (audit/seam_audit.py S2 says the same statically), so there was nothing to "
+                             "fail. No other fallible dependency exists: no I/O, no system call, no clock."),
         "interleaving_granularity": ("serial mode: whole public calls. fine mode: every instrumented access of library code to non-stack "
                                      "memory (sequentially consistent interleavings only)"),
         "stateless_tree_note": ("on a tree where audit/seam_audit.py reports no seam, every schedule is observationally equivalent; the "
